@@ -10,7 +10,7 @@ VERIF_FAIL = [
     'possible arithmetic underflow/overflow', 'invariant not satisfied', 'possible division by zero',
     'unreachable', 'bit shift', 'cannot prove termination', 'decreases not satisfied',
     'possible bit shift underflow/overflow', 'index out of bounds', 'could not prove termination',
-    'failed this', 'might not be allowed', 'possible truncation',
+    'failed this', 'might not be allowed', 'possible truncation', 'unable to prove', 'not satisfied',
 ]
 RLIMIT = ['resource limit', 'rlimit', 'timed out', 'timeout']
 
